@@ -164,7 +164,9 @@ func (x *Exec) toIface(v Val) Val {
 	fn := "box_" + mangle(srt)
 	x.ctx.decl("fun:"+fn, fmt.Sprintf("(declare-fun %s (%s) Int)", fn, srt))
 	x.ctx.decl("fun:un"+fn, fmt.Sprintf("(declare-fun un%s (Int) %s)", fn, srt))
-	x.st.assume(eq(fmt.Sprintf("(un%s (%s %s))", fn, fn, v.S), v.S))
+	if x.inSpec == 0 {
+		x.st.assume(eq(fmt.Sprintf("(un%s (%s %s))", fn, fn, v.S), v.S))
+	}
 	return Val{fmt.Sprintf("(mk_iface %d (%s %s))", tag, fn, v.S), types.NewInterfaceType(nil, nil)}
 }
 
@@ -211,8 +213,10 @@ func (x *Exec) lookupObj(env *evalEnv, id *ast.Ident) types.Object {
 			return o
 		}
 		// search all child scopes for a unique variable of that name (loop-local variables)
-		if o := findInScopes(env.scope, id.Name); o != nil {
+		if o, n := findInScopes(env.scope, id.Name); n == 1 {
 			return o
+		} else if n > 1 {
+			x.fail(id.Pos(), "BINDING: identifier %q is ambiguous here (%d declarations in the function)", id.Name, n)
 		}
 	}
 	if env.pkg != nil {
@@ -233,21 +237,23 @@ func (x *Exec) lookupObj(env *evalEnv, id *ast.Ident) types.Object {
 	return nil
 }
 
-func findInScopes(sc *types.Scope, name string) types.Object {
+func findInScopes(sc *types.Scope, name string) (types.Object, int) {
 	var found types.Object
+	n := 0
 	var walk func(s *types.Scope)
 	walk = func(s *types.Scope) {
 		if o := s.Lookup(name); o != nil {
 			if found == nil {
 				found = o
 			}
+			n++
 		}
 		for i := 0; i < s.NumChildren(); i++ {
 			walk(s.Child(i))
 		}
 	}
 	walk(sc)
-	return found
+	return found, n
 }
 
 func (x *Exec) globalVal(st *State, o *types.Var) Val {
@@ -543,6 +549,13 @@ func (x *Exec) binary(env *evalEnv, n *ast.BinaryExpr) Val {
 	switch n.Op {
 	case token.LAND, token.LOR:
 		a := x.expr(env, n.X)
+		if x.inSpec > 0 || env.spec {
+			b := x.expr(env, n.Y)
+			if n.Op == token.LAND {
+				return Val{and(a.S, b.S), tBool}
+			}
+			return Val{or(a.S, b.S), tBool}
+		}
 		// short circuit: evaluate b under assumption
 		saved := len(x.st.pc)
 		if n.Op == token.LAND {
@@ -749,7 +762,7 @@ func (x *Exec) walkFields(env *evalEnv, pos token.Pos, cur Val, idx []int) Val {
 
 // readFacts adds cheap type invariants for freshly read values
 func (x *Exec) readFacts(v Val) {
-	if len(v.S) > 400 {
+	if x.inSpec > 0 || len(v.S) > 400 {
 		return
 	}
 	switch v.Ty.Underlying().(type) {
@@ -827,7 +840,9 @@ func (x *Exec) sliceExpr(env *evalEnv, n *ast.SliceExpr) Val {
 			x.oblige(env, "bounds", n.Pos(), and("(<= 0 "+lo+")", "(<= "+lo+" "+hi+")", "(<= "+hi+" (strlen "+base.S+"))"), "slice bounds: "+exprStr(n))
 		}
 		r := Val{"(substr " + base.S + " " + lo + " " + hi + ")", base.Ty}
-		x.st.assume(eq("(strlen "+r.S+")", "(- "+hi+" "+lo+")"))
+		if x.inSpec == 0 {
+			x.st.assume(eq("(strlen "+r.S+")", "(- "+hi+" "+lo+")"))
+		}
 		return r
 	}
 	sl, ok := base.Ty.Underlying().(*types.Slice)
@@ -844,6 +859,9 @@ func (x *Exec) sliceExpr(env *evalEnv, n *ast.SliceExpr) Val {
 	}
 	if lo == "0" {
 		return Val{x.ctx.mkSlice(base.Ty, x.ctx.slArr(base), hi, "false"), base.Ty}
+	}
+	if x.inSpec > 0 {
+		x.fail(n.Pos(), "UNSUPPORTED reslice with non-zero low bound inside a spec expression")
 	}
 	es := x.ctx.Sort(sl.Elem())
 	arr := x.ctx.Fresh("resl", fmt.Sprintf("(Array Int %s)", es))
